@@ -72,13 +72,13 @@ Definition instr (op arg : N) (m : mstate) : ires :=
   else if op =? OpLocal then
     pop1 (fun name s =>
       match name_of o name with
-      | Ok n => IFall (mkM s (env_declare (menv m) n VNull) (trace m) (polls m))
+      | Ok n => IFall (mkM s (env_declare (menv m) (trim_dollar n) VNull) (trace m) (polls m))
       | Err e => IFin (OErr e) m
       end)
   else if op =? OpSet then
     pop2 (fun name v s =>
       match name_of o name with
-      | Ok n => IFall (mkM s (env_set (menv m) n (match v with VIter x _ => x | _ => v end)) (trace m) (polls m))
+      | Ok n => IFall (mkM s (env_set (menv m) (trim_dollar n) (match v with VIter x _ => x | _ => v end)) (trace m) (polls m))
       | Err e => IFin (OErr e) m
       end)
   else match binop_of_opcode op with
@@ -150,8 +150,8 @@ Definition instr (op arg : N) (m : mstate) : ires :=
         | VIter v off =>
             match name_of o vn, name_of o idn, iter_next o v off with
             | Ok var, Ok idx, Ok (Some (x, k)) =>
-                let e1 := env_declare (menv m) var x in
-                let e2 := match idx with [] => e1 | _ => env_declare e1 idx k end in
+                let e1 := env_declare (menv m) (trim_dollar var) x in
+                let e2 := match idx with [] => e1 | _ => env_declare e1 (trim_dollar idx) k end in
                 IFall (mkM (VBool true :: VIter v (off + 1) :: s) e2 (trace m) (polls m))
             | Ok _, Ok _, Ok None =>
                 match env_pop (menv m) with
@@ -183,7 +183,7 @@ Definition instr (op arg : N) (m : mstate) : ires :=
                    end) with
             | None => IFin (OErr EScript) m
             | Some v' =>
-                let e1 := env_set (menv m) name v' in
+                let e1 := env_set (menv m) (trim_dollar name) v' in
                 match stk m with
                 | _ :: s => IFall (mkM s e1 (trace m) (polls m))
                 | [] => IFin (OErr EInternal) (set_env m e1)
